@@ -102,6 +102,13 @@ func newResult() *Result {
 	return &Result{Others: map[string]int{}, Probes: map[string]int{}, Fired: map[string]int{}, States: map[string]bool{}}
 }
 
+// ObsDigest is the digest of the observations only (no tick counts).
+func (r *Result) ObsDigest() uint64 {
+	c := *r
+	c.ObsTicks = nil
+	return c.Digest()
+}
+
 func (r *Result) Digest() uint64 {
 	h := uint64(14695981039346656037)
 	mix := func(s string) {
@@ -1059,6 +1066,11 @@ func (x *pexec) doWReset(op *Op) string {
 	x.cursor += x.rd.HandedOut()
 	if x.cursor > len(x.t.Input) {
 		x.cursor = len(x.t.Input)
+	}
+	if op.N > 0 && len(x.t.Input) > 0 {
+		// the new reader serves the input again from an explicit position, so
+		// that a reset after the old reader was exhausted still has data
+		x.cursor = op.N % len(x.t.Input)
 	}
 	x.rd = NewSimReader(x.t.Input[x.cursor:], op.Plan, x.res.Fired)
 	pn, hang := x.call(x.budget(0), func() { x.wp.Reset(x.rd) })
